@@ -159,8 +159,10 @@ RegistryHoldsAllocs(vr) == vr.tok[Reg] = SumSet(DOMAIN vr.allocs, [i \in DOMAIN 
 AllowanceExact ==
   \A v \in DOMAIN VR.verifiers \cap DOMAIN VR'.verifiers :
      VR'.verifiers[v] # VR.verifiers[v] =>
+        \* (the grant must have arrived: a client that cannot receive tokens -- an actor that refuses the token
+        \* receiver hook, such as a miner -- cannot be granted anything, and the allowance must then stay)
         \/ (last'.a = "AddClient" /\ last'.ok /\ last'.c = v /\ VR'.verifiers[v] = VR.verifiers[v] - last'.amt
-            /\ VR'.tok[last'.cl] = VR.tok[last'.cl] + last'.amt)
+            /\ last'.cl \in DOMAIN VR.tok /\ VR'.tok[last'.cl] = VR.tok[last'.cl] + last'.amt)
         \/ (last'.a = "AddVerifier" /\ last'.ok /\ last'.v = v /\ last'.c = Root)
 MintOnlyByGrant ==
   (VR'.supply > VR.supply) => (last'.a = "AddClient" /\ last'.ok /\ last'.c \in DOMAIN VR.verifiers
